@@ -408,6 +408,32 @@ Definition f16_class (P : program) (q : query) : bool :=
   negb (Nat.eqb (length (q_ubs q)) 0) &&
   existsb (fun p => f16_pair atoms deep (fst p) (snd p)) (pairs_from cls).
 
+(** The part of F1's class (DESIGN §5 F1, [Contract.f1_class]) that can make an answer depend
+    on the ORDER: [MayInvalidate] goes wrong only when an ANSWER repeats a variable, and
+    anti-unification never introduces a repetition — so the query must have an unknown and
+    reach a clause head that repeats a variable, or carry a hypothesis that mentions a
+    variable of the goal (two such hypotheses give the answer [A := ^0, B := ^0]). *)
+Fixpoint goal_hyps (g : goal) : list hyp :=
+  match g with
+  | GAnd g1 g2 => goal_hyps g1 ++ goal_hyps g2
+  | GForall g' | GExists g' | GNot g' => goal_hyps g'
+  | GIf hs g' => hs ++ goal_hyps g'
+  | _ => []
+  end.
+
+Definition hyp_open (h : hyp) : bool := existsb (fun i => Nat.leb (hn h) i) (vars (chead (hc h))).
+
+Definition f1_order_class (P : program) (q : query) : bool :=
+  let cls := query_clauses P q in
+  let start := syms_of (goal_atoms (q_body q)) in
+  let R0 := reachS (graph_fuel cls (length start)) cls start [] in
+  negb (Nat.eqb (length (q_ubs q)) 0) &&
+  (existsb (fun c => match hsym (chead c) with
+                     | Some h => memN h R0 && has_dup (vars (chead c))
+                     | None => false
+                     end) cls
+   || existsb hyp_open (goal_hyps (q_body q))).
+
 (** The class is a property of the clause *set* up to order: swapping two clauses does not
     change membership (so the check may evaluate it on either of the two programs). *)
 Lemma inst_related_comm : forall h1 h2, inst_related h1 h2 = inst_related h2 h1.
@@ -475,6 +501,16 @@ Module PermExamples.
     f16_class P16b (mkQuery 0 [0%N] (GAtom (Foo2 (Vecc (TVar 0)) (TVar 0)))) = true /\
     f16_class P16b (mkQuery 0 [0%N] (GAtom (Foo2 (Vecc A) (TVar 0)))) = false /\
     f16_class P16b (mkQuery 0 [] (GAtom (Foo2 (Vecc S2c) S2c))) = false.
+  Proof. repeat split; vm_compute; reflexivity. Qed.
+
+  (** Ground impl headers that repeat an argument are outside both classes: an order
+      dependence of [exists<T> { T: Foo }] over [impl Foo for Pair<A,A>], [impl Foo for Pair<B,C>]
+      is reported. *)
+  Definition Pairc a b := tapp 7 [a; b].
+  Definition Ppair := mkProg [mkClause (Foo (Pairc A A)) []; mkClause (Foo (Pairc S2c (Vecc A))) []] [].
+  Example pair_outside_classes :
+    f16_class Ppair q16 = false /\ f1_order_class Ppair q16 = false /\
+    f1_order_class (mkProg [mkClause (Foo (Pairc (TVar 0) (TVar 0))) []; mkClause (Foo (Pairc A S2c)) []] []) q16 = true.
   Proof. repeat split; vm_compute; reflexivity. Qed.
 
   (** Non-vacuity of the permutation theorems: a program with a where-clause, reordered both
